@@ -254,23 +254,8 @@ func classify(a *metax.Inst, cmd metax.Cmd, ra, rb metax.Result, diff []string, 
 		return "replication_state_shared_with_snapshot"
 	case cmd.Kind == "RecoverMetaData" && diff == nil && (strings.Contains(ra.Err, "nil_map") || strings.Contains(rb.Err, "nil_map")):
 		return "recover_metadata_on_fresh_store"
-	case noSki && diff == nil && (cmd.Kind == "CreateShardGroup" || cmd.Kind == "CreateMeasurement" || cmd.Kind == "AlterShardKey"):
-		return "maporder_measurement_without_shardkey"
-	case mixed && diff != nil && (cmd.Kind == "ExpandGroups" || cmd.Kind == "CreateDataNode"):
-		// ExpandGroups skips a policy whose first-of-map measurement is range-sharded
-		if noSki {
-			return "maporder_measurement_without_shardkey"
-		}
-		return "maporder_mixed_sharding_types"
-	case mixed && noSki && (cmd.Kind == "CreateShardGroup" || cmd.Kind == "CreateMeasurement" || cmd.Kind == "AlterShardKey"):
-		// a key-less measurement let another sharding type in: results or the shard count of a
-		// new group follow the first measurement of the map
-		return "maporder_measurement_without_shardkey"
-	case mixed && !noSki && (cmd.Kind == "CreateShardGroup" || cmd.Kind == "CreateMeasurement" || cmd.Kind == "AlterShardKey"):
-		// a name re-created with another sharding type while its old incarnation is still in the
-		// policy (marked deleted): measurements of both types, the first of the map decides the
-		// answer - or, for CreateShardGroup, how many shards the group gets (catalogues differ)
-		return "maporder_mixed_sharding_types"
+	// (the map-order classes maporder_measurement_without_shardkey / maporder_mixed_sharding_types
+	// were repaired by cc9049f + 01de664: a divergence of that shape is an unknown violation again)
 	}
 	return ""
 }
